@@ -324,6 +324,10 @@ type c18DL struct {
 	// StallK > 0 (final reads only): the blocked Read sits in the middle of a frame header whose first
 	// StallK bytes arrived together with the message in front of it (a 70000-byte frame, so the header has 10 / 14 bytes)
 	StallK int
+	// PongInside (final active-write only): permessage-deflate is on, the peer takes the written message
+	// 1000 bytes at a time, pings once while it is arriving and then stops taking anything: the write
+	// deadline fires during a Write that has a Pong between two of its frames.
+	PongInside bool
 }
 
 func genC18DL(rt *rapid.T) c18DL {
@@ -346,6 +350,9 @@ func genC18DL(rt *rapid.T) c18DL {
 	}
 	c.Final = rapid.SampledFrom([]string{"active-read", "active-write", "during-read-past", "during-read-future", "during-write-past", "during-write-future", "none"}).Draw(rt, "final")
 	c.FinalD = rapid.SampledFrom([]time.Duration{time.Millisecond, time.Second, 7 * time.Second}).Draw(rt, "finalD")
+	if c.Final == "active-write" {
+		c.PongInside = rapid.Bool().Draw(rt, "pongInsideWrite")
+	}
 	if strings.Contains(c.Final, "read") && rapid.Bool().Draw(rt, "stallInHeader") {
 		c.StallK = rapid.IntRange(1, 13).Draw(rt, "stallK")
 	}
@@ -360,7 +367,11 @@ func runC18DL(t fataler, c c18DL) (string, c18DLResult) {
 	var res c18DLResult
 	e := newEnv(t)
 	defer e.Teardown()
-	lc, err := e.open(connSpec{Client: c.Client})
+	spec := connSpec{Client: c.Client}
+	if c.PongInside {
+		spec.Mode, spec.Ext = websocket.CompressionContextTakeover, "permessage-deflate"
+	}
+	lc, err := e.open(spec)
 	if err != nil {
 		return "handshake: " + err.Error(), res
 	}
@@ -533,10 +544,33 @@ func runC18DL(t fataler, c c18DL) (string, c18DLResult) {
 		}
 	case "active-write":
 		lc.End.SetInBudget(0)
+		payload := make([]byte, 9000)
+		if c.PongInside {
+			payload = expand(ckText, 77, 70000) // goes out as some eighty small frames
+			e.Go(func() {
+				b := make([]byte, 64)
+				for {
+					if _, err := nc.Read(b); err != nil {
+						return
+					}
+				}
+			})
+			e.Go(func() {
+				for i := 0; i < 8; i++ {
+					if !e.sleep(c.FinalD / 20) {
+						return
+					}
+					lc.End.AddInBudget(1000)
+					if i == 2 {
+						p.send(ref.Frame{Fin: true, Opcode: ref.OpPing, Payload: []byte("mid-message")})
+					}
+				}
+			})
+		}
 		nc.SetWriteDeadline(time.Now().Add(c.FinalD))
 		start := time.Now()
 		var err error
-		d := e.Call(func() { _, err = nc.Write(make([]byte, 9000)) })
+		d := e.Call(func() { _, err = nc.Write(payload) })
 		if !within(d, c.FinalD+time.Second) {
 			return "Write blocked past its deadline + 1 s", res
 		}
